@@ -25,7 +25,14 @@ type item struct {
 type gen struct {
 	*progen.G
 	items []*item
+	// exclusions by construction of known findings (switched by rec.Known in the test)
+	noMutualFuncs  bool // F-C16-1
+	noMethodInInit bool // F-C16-2
+	excluded       map[string]int
 }
+
+// Opts selects the exclusions; set by the test from known_findings.json.
+var Opts struct{ NoMutualFuncs, NoMethodInInit bool }
 
 func (g *gen) add(it *item) int {
 	for _, d := range it.deps {
@@ -181,6 +188,11 @@ func (g *gen) newFunc() {
 }
 
 func (g *gen) newMutualFuncs() {
+	if g.noMutualFuncs {
+		g.excluded["F-C16-1"]++
+		g.newFunc()
+		return
+	}
 	a, b := g.Top("even"), g.Top("odd")
 	var deps []int
 	base := g.intAtom(&deps)
@@ -234,17 +246,32 @@ func (g *gen) newVar() {
 
 func (g *gen) newType() {
 	switch g.Pick(3, "type-kind") {
-	case 0: // self-recursive struct + method + var using it
+	case 0: // struct with a method, and a variable initialised by calling it; plus a self-recursive struct
+		// (methods reached through a pointer field of a recursive type are a documented
+		// corner of gomacro's emulated recursive types and are not generated)
 		t := g.Top("T")
 		var deps []int
-		text := fmt.Sprintf("type %s struct {\n\ta    int\n\tnext *%s\n}", t, t)
+		text := fmt.Sprintf("type %s struct {\n\ta int\n\tb string\n}", t)
 		ti := g.add(&item{name: t, kind: "type", text: text})
-		mtext := fmt.Sprintf("func (t %s) Sum() int {\n\tif t.next == nil {\n\t\treturn t.a + %s\n\t}\n\treturn t.a + t.next.Sum()\n}", t, g.intAtom(&deps))
+		mtext := fmt.Sprintf("func (t %s) Sum() int {\n\treturn t.a + len(t.b) + %s\n}", t, g.intAtom(&deps))
 		mi := g.add(&item{name: t + ".Sum", kind: "method", text: mtext, deps: append([]int{ti}, deps...)})
 		v := g.Top("v")
 		var d2 []int
-		vtext := fmt.Sprintf("var %s = %s{%s, &%s{2, nil}}.Sum()", v, t, g.intAtom(&d2), t)
-		g.add(&item{name: v, kind: "var", text: vtext, deps: append([]int{ti, mi}, d2...), typ: "int", record: []string{v}})
+		if g.noMethodInInit {
+			// the method is called by the entry function instead of a package-level initialiser
+			g.excluded["F-C16-2"]++
+			vtext := fmt.Sprintf("var %s = %s{%s, \"xy\"}", v, t, g.intAtom(&d2))
+			g.add(&item{name: v, kind: "varstruct", text: vtext, deps: append([]int{ti, mi}, d2...), record: []string{v + ".Sum()"}})
+		} else {
+			vtext := fmt.Sprintf("var %s = %s{%s, \"xy\"}.Sum()", v, t, g.intAtom(&d2))
+			g.add(&item{name: v, kind: "var", text: vtext, deps: append([]int{ti, mi}, d2...), typ: "int", record: []string{v}})
+			g.Tag("method-call-in-package-level-initialiser")
+		}
+		r := g.Top("R")
+		ri := g.add(&item{name: r, kind: "type", text: fmt.Sprintf("type %s struct {\n\ta    int\n\tnext *%s\n}", r, r)})
+		w := g.Top("v")
+		var d3 []int
+		g.add(&item{name: w, kind: "varstruct", text: fmt.Sprintf("var %s = %s{%s, &%s{2, nil}}", w, r, g.intAtom(&d3), r), deps: append([]int{ri}, d3...), record: []string{w + ".a", w + ".next.a"}})
 		g.Tag("type-self-recursive")
 	case 1: // mutually recursive types
 		p, q := g.Top("P"), g.Top("Q")
@@ -278,7 +305,7 @@ func (g *gen) newType() {
 
 // Generate builds one declaration set in a random textual order.
 func Generate(t *rapid.T, px string) gobatch.Program {
-	g := &gen{G: progen.New(t, px, 0)}
+	g := &gen{G: progen.New(t, px, 0), noMutualFuncs: Opts.NoMutualFuncs, noMethodInInit: Opts.NoMethodInInit, excluded: map[string]int{}}
 	n := g.Int(3, 9, "ndecl")
 	for i := 0; i < n; i++ {
 		switch k := g.Pick(10, "decl-kind"); {
@@ -336,6 +363,11 @@ func Generate(t *rapid.T, px string) gobatch.Program {
 		}
 	}
 	prog := gobatch.Program{Decls: decls, Entry: entry, OneEval: true, Tags: g.TagList()}
+	for id, n := range g.excluded {
+		for i := 0; i < n; i++ {
+			prog.Tags = append(prog.Tags, "excluded-shape:"+id)
+		}
+	}
 	prog.Tags = append(prog.Tags, fmt.Sprintf("chain-depth-%d", min(maxDepth, 6)))
 	if nontopo {
 		prog.Tags = append(prog.Tags, "order-not-topological")
